@@ -1,8 +1,9 @@
 ---- MODULE GenWebrtcStream ----
-(* C56 schedule generator: the paired two-stream instance of WebrtcStream with a history of the letters
-   taken.  The history is excluded from the VIEW, so TLC explores the model's state graph once and
-     GenStates : prints the (breadth-first, hence shortest) letter sequence reaching every distinct model state
-     GenEdges  : prints the letter sequence of every explored transition (state graph edge cover)          *)
+(* C56 schedule generator: an instance of WebrtcStream with a history of the letters taken.  The history
+   is excluded from the VIEW, so TLC explores the model's state graph once and
+     EmitState (INVARIANT)         prints the breadth-first letter sequence reaching every distinct model state
+     EmitEdge  (ACTION_CONSTRAINT) prints the letter sequence of every explored transition (edge cover of the
+                                   state graph: every operation is tried in every reachable model state)     *)
 EXTENDS WebrtcStream, Json
 VARIABLE h
 GInit == Init /\ h = <<>>
